@@ -151,6 +151,86 @@ func joinQ(xs []string) string {
 	return strings.Join(qs, ", ")
 }
 
+// baseOrigin prints the expression through which a field is reached.  A LOCAL variable
+// (declared inside the function body) is not printed by its name but by where its value
+// comes from — ‹rhs of its first definition› (locals inside that rhs printed by type), or
+// ‹range X› for a range variable — so that renaming a local changes neither the table nor
+// the confinement classification.  Receivers and parameters keep their names.
+func baseOrigin(info *types.Info, fd *ast.FuncDecl, e ast.Expr) string {
+	origin := map[*types.Var]string{}
+	isLocal := func(v *types.Var) bool {
+		return v != nil && !v.IsField() && fd.Body != nil && v.Pos() >= fd.Body.Pos() && v.Pos() <= fd.Body.End()
+	}
+	var pkg *types.Package
+	ast.Inspect(fd.Body, func(n ast.Node) bool {
+		switch x := n.(type) {
+		case *ast.AssignStmt:
+			if x.Tok != token.DEFINE {
+				return true
+			}
+			for i, l := range x.Lhs {
+				id, ok := l.(*ast.Ident)
+				if !ok {
+					continue
+				}
+				v, _ := info.Defs[id].(*types.Var)
+				if v == nil || !isLocal(v) {
+					continue
+				}
+				if pkg == nil {
+					pkg = v.Pkg()
+				}
+				rhs := x.Rhs[0]
+				if len(x.Rhs) == len(x.Lhs) {
+					rhs = x.Rhs[i]
+				}
+				if _, dup := origin[v]; !dup {
+					origin[v] = "‹" + normExpr(info, v.Pkg(), rhs) + "›"
+				}
+			}
+		case *ast.RangeStmt:
+			if x.Tok != token.DEFINE {
+				return true
+			}
+			for _, l := range []ast.Expr{x.Key, x.Value} {
+				if id, ok := l.(*ast.Ident); ok {
+					if v, _ := info.Defs[id].(*types.Var); v != nil && isLocal(v) {
+						origin[v] = "‹range " + normExpr(info, v.Pkg(), x.X) + "›"
+					}
+				}
+			}
+		}
+		return true
+	})
+	type saved struct {
+		id *ast.Ident
+		n  string
+	}
+	var sv []saved
+	ast.Inspect(e, func(n ast.Node) bool {
+		id, ok := n.(*ast.Ident)
+		if !ok {
+			return true
+		}
+		v, _ := info.Uses[id].(*types.Var)
+		if v == nil || !isLocal(v) {
+			return true
+		}
+		o, ok := origin[v]
+		if !ok {
+			o = "‹" + types.TypeString(v.Type(), func(p *types.Package) string { return p.Name() }) + "›"
+		}
+		sv = append(sv, saved{id, id.Name})
+		id.Name = o
+		return true
+	})
+	out := src(e)
+	for _, x := range sv {
+		x.id.Name = x.n
+	}
+	return out
+}
+
 func accessesOf(p *packages.Package, fn string, fd *ast.FuncDecl) []access {
 	var out []access
 	info := p.TypesInfo
@@ -294,7 +374,7 @@ func accessesOf(p *packages.Package, fn string, fd *ast.FuncDecl) []access {
 		if tn, ok := sel.Obj().Type().(*types.Named); ok && tn.Obj().Pkg() != nil && tn.Obj().Pkg().Path() == "sync" {
 			return true
 		}
-		out = append(out, access{fn: fn, loc: ty + "." + se.Sel.Name, base: src(se.X), write: writes[se], locks: held(se.Pos())})
+		out = append(out, access{fn: fn, loc: ty + "." + se.Sel.Name, base: baseOrigin(info, fd, se.X), write: writes[se], locks: held(se.Pos())})
 		return true
 	})
 	return out
